@@ -565,7 +565,7 @@ struct OpRecord {
     nested: bool,
 }
 
-fn run_op(sched: &Sched, me: usize, idx: usize, op: &Op, alloc_seams: bool) -> OpRecord {
+fn run_op(sched: &Sched, me: usize, idx: usize, op: &Op, alloc_seams: bool, lean: bool) -> OpRecord {
     let sh = shown(&op.what, &op.spec);
     let mut sink = SimSink { sched, me, op, writes: 0, text: String::new(), fault_fired: None, nested: None };
     if alloc_seams && !sched.free {
@@ -615,10 +615,14 @@ fn run_op(sched: &Sched, me: usize, idx: usize, op: &Op, alloc_seams: bool) -> O
         nested_line = format!(" nested[{:?} {:?}]", nout, ntext);
     }
     OpRecord {
-        line: format!(
+        line: if lean {
+            String::new()
+        } else {
+            format!(
             "t{} op{} {} {} -> {:?} writes={} fault={:?} text={:?}{}",
             me, idx, sh.describe, op.spec.literal(), out, sink.writes, sink.fault_fired, sink.text, nested_line
-        ),
+            )
+        },
         violations,
         judged,
         fault: sink.fault_fired,
@@ -641,28 +645,61 @@ pub fn execute_mode(plan: &Plan, free: bool) -> RunResult {
     }
     let mut handles = Vec::new();
     let alloc_seams = plan.alloc_seams;
+    let (lean, repeat) = (plan.lean, plan.repeat.max(1));
     for (me, ops) in plan.threads.iter().cloned().enumerate() {
         let sched = Arc::clone(&sched);
         handles.push(std::thread::spawn(move || {
             sched.start(me);
             let mut recs = Vec::new();
-            for (i, op) in ops.iter().enumerate() {
-                sched.seam(me, false);
-                recs.push(run_op(&sched, me, i, op, alloc_seams));
+            let mut lean_sum = (0u64, 0u64);
+            let mut kinds: Vec<(String, u32)> = Vec::new();
+            for rep in 0..repeat {
+                for (i, op) in ops.iter().enumerate() {
+                    sched.seam(me, false);
+                    let rec = run_op(&sched, me, rep as usize * ops.len() + i, op, alloc_seams, lean);
+                    if lean {
+                        // a soak run keeps counts and violations only
+                        lean_sum.0 += rec.judged;
+                        lean_sum.1 += 1;
+                        // ... of every kind the first few
+                        let mut keep = false;
+                        for v in &rec.violations {
+                            match kinds.iter_mut().find(|k: &&mut (String, u32)| k.0 == v.kind) {
+                                Some(k) => {
+                                    k.1 += 1;
+                                    keep |= k.1 <= 4;
+                                }
+                                None => {
+                                    kinds.push((v.kind.clone(), 1));
+                                    keep = true;
+                                }
+                            }
+                        }
+                        if keep {
+                            recs.push(rec);
+                        }
+                    } else {
+                        recs.push(rec);
+                    }
+                }
             }
             sched.finish(me);
-            recs
+            (recs, lean_sum)
         }));
     }
     let mut stats = RunStats::default();
     let mut violations = Vec::new();
     let mut log = Vec::new();
     for h in handles {
-        let recs = h.join().expect("simulated caller thread died outside an operation");
+        let (recs, lean_sum) = h.join().expect("simulated caller thread died outside an operation");
+        stats.judged += lean_sum.0;
+        stats.ops += lean_sum.1;
         let mut faulted_before = false;
         for r in recs {
-            stats.ops += 1;
-            stats.judged += r.judged;
+            if !lean {
+                stats.ops += 1;
+                stats.judged += r.judged;
+            }
             if faulted_before {
                 stats.ops_after_fault_same_thread += 1;
             }
@@ -685,7 +722,9 @@ pub fn execute_mode(plan: &Plan, free: bool) -> RunResult {
                 stats.nested_fired += 1;
             }
             violations.extend(r.violations);
-            log.push(r.line);
+            if !lean {
+                log.push(r.line);
+            }
         }
     }
     let st = sched.st.lock().unwrap();
